@@ -408,7 +408,7 @@ func (im *impl) genStress(h *vh.H, i int) string {
 		maxLen = 4 << 20
 	}
 	depth := 1000 + h.Rng.IntN(maxDepth)
-	switch i % 8 {
+	switch i % 9 {
 	case 0: // valid recursion through Tree.left
 		md = ts.byRoot["g1.v1.Tree"]
 		b = []byte(strings.Repeat(`{"left":`, depth) + "{}" + strings.Repeat("}", depth))
@@ -432,6 +432,13 @@ func (im *impl) genStress(h *vh.H, i int) string {
 		md = ts.byRoot["g1.v1.Tree"]
 		n := 1000 + h.Rng.IntN(maxLen)
 		b = []byte(`{"value":"` + strings.Repeat("x", n) + `"}`)
+	case 8: // Any values nested in Any values, expanded to proto (WithProtoToAny): cubic before 309b762
+		md = ts.byRoot["g1.v1.RW"]
+		k := 90 + h.Rng.IntN(1500)
+		if h.Tier == "thorough" {
+			k = 90 + h.Rng.IntN(4500)
+		}
+		b = []byte(strings.Repeat(`{"any":{"!type":"g1.v1.RW","value":`, k) + "{}" + strings.Repeat("}}", k))
 	default: // map with many keys
 		md = ts.byRoot["g1.v1.Tree"]
 		var sb strings.Builder
@@ -447,7 +454,7 @@ func (im *impl) genStress(h *vh.H, i int) string {
 		b = []byte(sb.String())
 	}
 	mode := "n"
-	if i%8 == 4 {
+	if i%9 == 4 || i%9 == 8 {
 		mode = "p"
 	}
 	return "dec " + mode + " (env) " + j5Name(md) + " " + vh.Hex(b) + " (ora)"
